@@ -35,4 +35,21 @@ pub mod imbl {
                     forall|k: K| final(self)@.contains_key(k) ==> #[trigger] final(self)@[k] == old(self)@[k],
         { unimplemented!() }
     }
+
+    /// imbl::OrdMap: a finite map iterated in key order (the order itself is not modelled: only that every key is visited exactly once)
+    #[verifier::external_body] #[verifier::accept_recursive_types(K)] #[verifier::accept_recursive_types(V)]
+    pub struct OrdMap<K, V> { _p: core::marker::PhantomData<(K, V)> }
+    impl<K, V> View for OrdMap<K, V> { type V = Map<K, V>; uninterp spec fn view(&self) -> Map<K, V>; }
+    impl<K, V> OrdMap<K, V> {
+        #[verifier::external_body]
+        pub fn insert(&mut self, k: K, v: V) -> (r: Option<V>) ensures final(self)@ == old(self)@.insert(k, v) { unimplemented!() }
+        #[verifier::external_body]
+        pub fn is_empty(&self) -> (r: bool) ensures r == (self@.len() == 0) { unimplemented!() }
+        #[verifier::external_body]
+        pub fn values(&self) -> (r: Vec<&V>)
+            ensures exists|ks: Seq<K>| is_enum(self@, ks) && r@.len() == ks.len() && (forall|i: int| 0 <= i < ks.len() ==> *(#[trigger] r@[i]) == self@[ks[i]])
+        { unimplemented!() }
+        #[verifier::external_body]
+        pub fn keys(&self) -> (r: Vec<&K>) ensures is_enum(self@, Seq::new(r@.len(), |i: int| *r@[i])) { unimplemented!() }
+    }
 }
